@@ -195,6 +195,67 @@ fn run_cfg(cx: &mut CaseCx, case: &Value) {
 
 
 /// every (message length, coin length) pair of a triangle: share and recover
+
+/// Mixed batches: shares of two sharings A and B (thresholds incl. 0) in every sequence up to length 4.
+/// Ok(m) is only allowed when m is the message of a sharing with threshold >= 1 that contributes at least
+/// threshold-many distinct shares; a threshold-0 sharing never recovers, whatever travels with it.
+fn run_mixed_batches(cx: &mut CaseCx, case: &Value) {
+  let ta = case["ta"].as_u64().unwrap() as u32;
+  let tb = case["tb"].as_u64().unwrap() as u32;
+  let (ma, ra) = (b"message of sharing A".to_vec(), b"coins A".to_vec());
+  let (mb, rb) = (b"B's message".to_vec(), prbytes(0xB0B, 32));
+  let mut sym: Vec<(char, usize, Share)> = vec![];
+  for (who, t, m, r) in [('A', ta, &ma, &ra), ('B', tb, &mb, &rb)] {
+    for i in 0..3usize {
+      getrandom::verif::set_group(if who == 'A' { 1 } else { 50 } + i as u32);
+      match share_of(&Commune::new(t, m.clone(), r.clone(), None)) {
+        Ok(s) => sym.push((who, i, s)),
+        Err(e) => {
+          cx.viol("C16/share-failed", format!("share() failed: {}", e), json!({"t": t}));
+          return;
+        }
+      }
+    }
+  }
+  for_each_seq(sym.len(), 4, |seq| {
+    if seq.is_empty() {
+      return;
+    }
+    let batch: Vec<Share> = seq.iter().map(|&k| sym[k].2.clone()).collect();
+    let names: Vec<String> = seq.iter().map(|&k| format!("{}{}", sym[k].0, sym[k].1)).collect();
+    let distinct = |who: char| {
+      let mut v: Vec<usize> = seq.iter().filter(|&&k| sym[k].0 == who).map(|&k| sym[k].1).collect();
+      v.sort();
+      v.dedup();
+      v.len() as u32
+    };
+    let a_reaches = ta >= 1 && distinct('A') >= ta;
+    let b_reaches = tb >= 1 && distinct('B') >= tb;
+    cx.eval();
+    cx.count("states", 1);
+    cx.count("transitions", 1);
+    cx.nontrivial(fnv_str(&format!("{}|{}|{:?}", ta, tb, seq)));
+    let d = || json!({"threshold_A": ta, "threshold_B": tb, "batch": names});
+    match rec(&batch) {
+      Ok(Ok(c)) => {
+        let m = c.get_message();
+        if m == ma && !a_reaches {
+          cx.viol(if ta == 0 { "C16/threshold-zero-recovers/mixed-batch" } else { "C16/recovered-below-threshold/mixed-batch" }, format!("the batch {:?} recovers sharing A (threshold {}) although it holds only {} distinct share(s) of A{}", names, ta, distinct('A'), if ta == 0 { " - a threshold-0 sharing never recovers" } else { "" }), d());
+        } else if m == mb && !b_reaches {
+          cx.viol(if tb == 0 { "C16/threshold-zero-recovers/mixed-batch" } else { "C16/recovered-below-threshold/mixed-batch" }, format!("the batch {:?} recovers sharing B (threshold {}) although it holds only {} distinct share(s) of B", names, tb, distinct('B')), d());
+        } else if m != ma && m != mb {
+          cx.viol("C16/wrong-message/mixed-batch", format!("the batch {:?} recovers a message that belongs to neither sharing", names), d());
+        } else {
+          cx.count("mixed_recovered", 1);
+        }
+      }
+      Ok(Err(_)) => cx.count("mixed_rejected", 1),
+      Err(p) => cx.viol("C16/recover-panicked", p, d()),
+    }
+  });
+  cx.outcome(format!("ta={} tb={}", ta, tb));
+}
+
 fn run_length_square(cx: &mut CaseCx, case: &Value) {
   let ml = case["ml"].as_u64().unwrap() as usize;
   let t = 2u32;
@@ -379,6 +440,21 @@ pub fn spec() -> PropSpec {
         },
         run: run_cfg,
         min_counts: &[("ok", 1000), ("err", 100), ("mixed_old_new_ok", 100), ("replay_identical", 50)],
+      },
+      Check {
+        name: "mixed-batches",
+        rule: "two sharings A, B with thresholds (tA, tB) over {0,1,2,3} x {0,1,2,3,5}, three independent shares each: EVERY sequence of length 1..4 over the six shares handed to recover: Ok(m) only if m is the message of a sharing with threshold >= 1 contributing >= threshold distinct shares; in particular a threshold-0 sharing never recovers whatever travels in the same batch",
+        gen: |_| {
+          let mut v = vec![];
+          for ta in [0u64, 1, 2, 3] {
+            for tb in [0u64, 1, 2, 3, 5] {
+              v.push(json!({"ta": ta, "tb": tb}));
+            }
+          }
+          v
+        },
+        run: run_mixed_batches,
+        min_counts: &[("mixed_rejected", 5000), ("mixed_recovered", 100)],
       },
       Check {
         name: "length-square",
